@@ -288,6 +288,9 @@ def build_ledger(ctx, path, own_ex):
         elif nt in ("strong::Rc::into_raw", "weak::Weak::into_raw"):
             side = "strong" if nt.startswith("strong") else "weak"
             L.add(i, side, owner_class(e.args[0]), "consume", m, e)
+        elif nt == "std::mem::ManuallyDrop::new" and (e.callee.type_args() or [{}])[0].get("adt") in ("strong::Rc", "weak::Weak"):
+            # `ManuallyDrop::new(Weak::from_raw(ptr))`: a borrowed view of a handle - the value will never give its share back
+            L.add(i, OWNER_SIDE[e.callee.type_args()[0].get("adt")], owner_class(e.args[0]), "consume", m, e)
         elif nt == "std::mem::forget":
             targs = e.callee.type_args()
             adt = targs[0].get("adt") if targs else None
@@ -352,6 +355,26 @@ def build_ledger(ctx, path, own_ex):
                 if s["event"] is e and s["delta"].get("strong") and s["outcome"] == "ok":
                     sign, amt = s["delta"]["strong"]
                     L.add(i, "strong", pclass(s["obj"]), "dec" if sign < 0 else "inc", m.scale(lin_of(amt, subst)), e)
+        elif nt.startswith("std::sync::atomic::Atomic::") and not b.name.startswith("utils::"):
+            # an RMW on the count word seen in a function outside utils.rs: a count-changing helper a refactoring introduced
+            # (`RcInner::increment_weak_owned`), read inlined. It counts for what it adds - except the token an increment from
+            # zero adds on top (an RMW under `weak(S) == 0` / `strong(S) == 0` of the word an earlier adding RMW observed)
+            sites = ctx.sites_on_path(path)
+            for s in sites:
+                if s["event"] is not e or s["outcome"] != "ok":
+                    continue
+                for side in ("strong", "weak"):
+                    d = s["delta"].get(side)
+                    if not d:
+                        continue
+                    sign, amt = d
+                    if sign > 0:
+                        earlier = [x["observed"] for x in sites if x["idx"] < s["idx"] and x["delta"].get(side, (0,))[0] > 0]
+                        tok = [q for q in ctx.predicates(path, upto=s["idx"]) if q["field"] == side and q["rel"] == "=="
+                               and q["S"] in earlier and (q["rhs"] == ("c", 0, "u32") or str(q["rhs"][1:2]) == "(0,)")]
+                        if tok:
+                            continue
+                    L.add(i, side, pclass(s["obj"]), "dec" if sign < 0 else "inc", m.scale(lin_of(amt, subst)), e)
     # Drop impls consume their own share at entry
     if is_drop_impl:
         selfv = ("deref", ("arg", 1, b.local_name(1)))
